@@ -15,11 +15,13 @@ EXTENDS Integers, Sequences, FiniteSets, TLC, Json
 
 CONSTANTS MaxFeeds, CloseDelayIsZero     \* closeDelay = 0 s is possible: then the two deadlines coincide
 
-Classes == {"junk", "partial", "valid", "validplus", "badmac", "oversize"}
+Classes == {"junk", "partial", "valid", "validplus", "badmac", "oversize", "flood"}
 \* junk: bytes that never contain the mark;  partial: a proper prefix of a valid handshake;
 \* valid: the rest of a valid handshake (complete now);  validplus: a valid handshake with trailing bytes in the same read;
 \* badmac: mark found at the tail but MAC invalid / replayed / wrong hour / wrong identity / ntor failure;
 \* oversize: the buffer reaches 8192 bytes without a valid handshake
+\* flood: far more bytes than any buffer or threshold of the server (64 KiB): fails a handshake in progress like oversize;
+\*        while discarding it changes NOTHING - the connection is closed at the drop deadline, not by a byte count
 
 VARIABLES phase,      \* "hs" | "discard" | "est" | "closed"
           armed,      \* "none" | "hs" | "drop"
@@ -34,7 +36,7 @@ Fail == phase' = "discard" /\ armed' = "drop"
 Feed(c) == /\ ~peerGone /\ feeds < MaxFeeds /\ feeds' = feeds + 1 /\ hist' = Append(hist, [a |-> "feed", c |-> c])
            /\ CASE phase = "hs" /\ c = "valid" -> phase' = "est" /\ armed' = "none" /\ written' = 1 /\ validSeen' = TRUE
                 [] phase = "hs" /\ c \in {"junk", "partial"} -> UNCHANGED <<phase, armed, written, validSeen>>      \* mark not found yet
-                [] phase = "hs" /\ c \in {"validplus", "badmac", "oversize"} -> Fail /\ UNCHANGED <<written, validSeen>>
+                [] phase = "hs" /\ c \in {"validplus", "badmac", "oversize", "flood"} -> Fail /\ UNCHANGED <<written, validSeen>>
                 [] OTHER -> UNCHANGED <<phase, armed, written, validSeen>>     \* discarding / established / closed: input changes nothing here
            /\ UNCHANGED peerGone
 Fire == /\ armed # "none" /\ phase \in {"hs", "discard"} /\ hist' = Append(hist, [a |-> "fire", c |-> armed])
